@@ -1297,6 +1297,24 @@ def main(out_path):
         w(kernel('src_first_packet_wrong_type', [('sshv', 'Z'), ('packet_type', 'Z')], stmts, inputs=ins, result='err_pair'))
     soft('first-packet classification (audit)', ['C09'], ex_first_packet)
 
+    def ex_rate_loop():
+        # DHEat._dh_rate_test: the two stop conditions of the outer loop and the condition under which another socket is opened
+        t_dh = ast.parse(src('dheat.py'))
+        rt = func_node(t_dh, 'DHEat._dh_rate_test')
+        brk = [n for n in ast.walk(rt) if isinstance(n, ast.If) and len(n.body) == 1 and isinstance(n.body[0], ast.Break) and 'max_connections' in ast.unparse(n.test)]
+        need(len(brk) == 2, 'rate test: two stop conditions over max_connections: %d' % len(brk))
+        ins = {'interactive': ('interactive', 'bool'), 'now - start_timer >= max_time': ('time_up', 'bool'), 'len(socket_dict)': ('pending', 'Z')}
+        brk.sort(key=lambda x: x.lineno)
+        w(kernel('src_rate_stop_time_or_opened', [('interactive', 'bool'), ('time_up', 'bool'), ('num_opened_connections', 'Z'), ('max_connections', 'Z')], [ast.Return(value=brk[0].test)], inputs=ins))
+        w(kernel('src_rate_stop_attempts', [('interactive', 'bool'), ('num_attempted_connections', 'Z'), ('max_connections', 'Z'), ('pending', 'Z')], [ast.Return(value=brk[1].test)], inputs=ins))
+        wl = [n for n in ast.walk(rt) if isinstance(n, ast.While) and 'concurrent_sockets' in ast.unparse(n.test)]
+        need(len(wl) == 1, 'rate test: the socket-opening loop')
+        w(kernel('src_rate_open_more', [('interactive', 'bool'), ('pending', 'Z'), ('concurrent_sockets', 'Z'), ('num_opened_connections', 'Z'), ('num_attempted_connections', 'Z'), ('max_connections', 'Z')],
+                 [ast.Return(value=wl[0].test)], inputs=ins))
+        incs = [ast.unparse(n) for n in ast.walk(wl[0]) if isinstance(n, ast.AugAssign)]
+        need('num_attempted_connections += 1' in incs, 'rate test: every connect attempt is counted')
+    soft('stop and open conditions of the connection-rate check (DHEat._dh_rate_test)', ['C19'], ex_rate_loop)
+
     def ex_audit_phases():
         # audit(): the block between the parsed KEXINIT and the report decides which follow-up phases run (each phase = connections to the target).
         # Calls that start a phase are rewritten to `log.append(<phase>)`, every `return` to `return log`, debug output is dropped; the rest is translated as it stands.
